@@ -40,7 +40,7 @@ THEOREM_PRED = {'C10_solved_iff': 'IsProblemSolved', 'C10_indiffInfOrUnb_iff': '
                 'C10_counterexample_infeasible': 'IsProblemInfeasible',
                 'C10_solvedOrFeasible': 'IsProblemSolvedOrFeasible', 'C10_counterexample_solvedOrFeasible': 'IsProblemSolvedOrFeasible',
                 'C10_objective': 'objective', 'C10_counterexample_objective': 'objective', 'C10_no_objective': 'objective',
-                'C10_report_model_eq_generated': 'objective', 'C10_code_echo': 'code', 'C10_alt': 'altsol', 'C10_chain_forwards_code': 'altsol',
+                'C10_report_model_eq_generated': 'objective', 'C10_code_echo': 'code', 'C10_alt': 'altsol', 'C10_chain_forwards_code': 'altsol', 'C10_feasrelax': 'message:', 'C10_kappa': 'suffix:kappa', 'C10_unbdd': 'suffix:unbdd', 'C10_dunbdd': 'suffix:dunbdd', 'C10_iis': 'suffix:iis',
                 'C10_enum': 'enum', 'C10_registry': 'table', 'C10_ranges': 'table', 'C10_rangeRows': 'table',
                 'C10_predicate_inclusions': 'Is'}
 
@@ -140,9 +140,9 @@ def canon_report(line, expected_nobj, stub=0):
        solver returned and whether or not primal/dual vectors exist.  The observed size is only compared
        with that expectation by the caller."""
     head, obs = line.split(' | ', 1)
-    _, c, n, p, d, k = head.split(' ')
+    _, c, n, p, d, k, fl = head.split(' ')
     if obs.startswith('sol-unreadable'):
-        return None, None, {'error': obs, 'code': int(c), 'nobj_in': int(n), 'primal': int(p), 'dual': int(d), 'nalt_in': int(k)}
+        return None, None, {'error': obs, 'code': int(c), 'nobj_in': int(n), 'primal': int(p), 'dual': int(d), 'nalt_in': int(k), 'flags': int(fl)}
     kv = dict(x.split('=', 1) for x in obs.split(' '))
     o = {'code': int(c), 'nobj_in': int(n), 'primal': int(p), 'dual': int(d),
          'objShown': int(kv['objShown']), 'objValText': int(kv['objValText']), 'written': int(kv['code']), 'nx': int(kv['nx']), 'ny': int(kv['ny']),
@@ -150,7 +150,10 @@ def canon_report(line, expected_nobj, stub=0):
          'samemsg': int(kv['samemsg']), 'objno': int(kv['objno']), 'rc': int(kv['rc']),
          'nalt_in': int(k), 'stub': stub, 'multi': int(kv['multi']), 'nfiles': int(kv['nalt']),
          'altcodes': [] if kv['altcodes'] == '-' else kv['altcodes'].split(','),
-         'hfs': [] if kv['hfs'] == '-' else [int(x) for x in kv['hfs'].split(',')], 'altmsg': int(kv['altmsg'])}
+         'hfs': [] if kv['hfs'] == '-' else [int(x) for x in kv['hfs'].split(',')], 'altmsg': int(kv['altmsg']),
+         'flags': int(fl), 'fr': int(kv['fr']), 'orig': int(kv['orig']), 'kappamsg': int(kv['kappamsg']), 'extra': int(kv['extra']),
+         'roundmsg': int(kv['roundmsg']), 'altrange': int(kv['altrange']), 'stdoutmsg': int(kv['stdoutmsg']), 'stdoutobj': int(kv['stdoutobj']),
+         'sufs': set() if kv['sufs'] == '-' else set(kv['sufs'].split(','))}
     o['nobj_expected'] = expected_nobj
     op = 'report %d %d %d %d %d %d' % (o['code'], expected_nobj, o['primal'], o['dual'], o['nalt_in'], stub)
     can = '%s | objShown=%d code=%d primal=%d dual=%d objval=%d alt=%s' % (
@@ -168,7 +171,7 @@ def run(ck):
                        os.path.join(BUILD, 'tr'), inc], timeout=600)
     ck.log((out.strip() or err.strip())[-600:])
     translator_ok = rc == 0
-    N_THEOREMS = 30
+    N_THEOREMS = 36
     proof_ok, failing = False, []
     if translator_ok:
         proof_ok, failing = ck.proof_stage('MpVerif.C10.Props', 'MpVerif/C10/Props.lean', 'C10_',
@@ -187,7 +190,12 @@ def run(ck):
 
     doc = Doc(parse_doc(REPO))
     ck.log('documented table: %d range rows, %d single codes' % (len(doc.ranges), len(doc.singles)))
-    exe = build_harness(ck)
+    cov_mode = os.environ.get('VERIF_COVERAGE') == '1'      # measurement run, see checks/c10_coverage.py
+    if cov_mode:
+        import c10_coverage
+        exe = c10_coverage.build(ck)
+    else:
+        exe = build_harness(ck)
     drv = None
     if translator_ok:
         try:
@@ -198,16 +206,44 @@ def run(ck):
     work = os.path.join(BUILD, 'c10')
     os.makedirs(work, exist_ok=True)
 
-    corr = {'enum': 0, 'pred': 0, 'table': 0, 'report': 0, 'class': 0, 'doctable': 0}
+    corr = {'enum': 0, 'pred': 0, 'table': 0, 'report': 0, 'extras': 0, 'class': 0, 'doctable': 0}
     corr_bad = {}
     hist = {'pred_true': {p: 0 for p in PREDS}, 'class': {}, 'report_objShown': 0, 'report_runs': 0,
             'report_by_class': {}, 'models': {}}
+
+    arms = {}     # which arms of the Lean model functions the correspondence stream exercised (read off the driver's answers)
+
+    def note_arms(lines):
+        for l in lines:
+            f = l.split(' ')
+            if f[0] == 'class' and len(f) == 5:
+                arms['documented/classify=' + f[3]] = arms.get('documented/classify=' + f[3], 0) + 1
+                arms['candidate=' + f[4]] = arms.get('candidate=' + f[4], 0) + 1
+            elif f[0] == 'pred':
+                for nm, b in zip(PREDS, f[2:]):
+                    arms['%s=%s' % (nm, b)] = arms.get('%s=%s' % (nm, b), 0) + 1
+            elif f[0] in ('report', 'extras') and ' | ' in l:
+                for kv in l.split(' | ')[1].split(' '):
+                    key, v = kv.split('=', 1)
+                    if key == 'code':
+                        continue
+                    if key == 'alt':
+                        v = 'none' if v == '' else ('one' if ',' not in v else 'several')
+                    arms['%s.%s=%s' % (f[0], key, v)] = arms.get('%s.%s=%s' % (f[0], key, v), 0) + 1
+                if f[0] == 'report':
+                    arms['report.solStub=%s' % f[6]] = arms.get('report.solStub=%s' % f[6], 0) + 1
+            elif f[0] in ('enum', 'row', 'end-table'):
+                arms[f[0]] = arms.get(f[0], 0) + 1
+            elif f[0] == 'bad-op':
+                arms['bad-op'] = arms.get('bad-op', 0) + 1
 
     def model(ops):
         if not drv:
             return None
         p = subprocess.run([drv], input='\n'.join(ops) + '\n', capture_output=True, text=True)
-        return p.stdout.split('\n')[:-1]
+        out = p.stdout.split('\n')[:-1]
+        note_arms(out)
+        return out
 
     def disagree(stream, op, impl, mdl):
         corr_bad.setdefault(stream, []).append((op, impl, mdl))
@@ -318,6 +354,20 @@ def run(ck):
         if (a, d) not in impl_singles:
             ck.add_violation('table:single-missing:%d' % a, 'documented single code %d "%s" is not printed by -!' % (a, d),
                              {'code': a, 'replay': 'h_status table'}, found_input=True)
+    # codes the backend registers itself (AddSolveResults in C10Backend::InitCustomOptions) must be listed, inside a listed range
+    for a, d in [(421, 'c10 custom limit, feasible solution'), (491, 'c10 custom limit, no feasible solution'), (501, 'c10 custom failure'),
+                 (350, 'c10 custom code at the start of a range')]:
+        if (a, d) not in impl_singles:
+            ck.add_violation('table:custom-code-missing:%d' % a, 'code %d registered by the backend through AddSolveResults is not printed by -!' % a,
+                             {'code': a, 'replay': 'h_status table'}, found_input=True)
+    for a, d in sorted(impl_singles):
+        if sum(1 for x, y, _ in impl_ranges if x <= a <= y) != 1:
+            ck.add_violation('table:single-outside-ranges:%d' % a, 'single code %d "%s" printed by -! lies in %d printed ranges' % (a, d, sum(1 for x, y, _ in impl_ranges if x <= a <= y)),
+                             {'code': a, 'replay': 'h_status table'}, found_input=True)
+    # listing order: by first code, a range before the single code that starts it (RegEntry::operator<)
+    if impl_rows != sorted(impl_rows, key=lambda r: (r[0], -r[1])):
+        ck.add_violation('table:order', 'the -! table is not ordered by code (ranges before the single codes they start with)',
+                         {'printed': [(a, b) for a, b, _ in impl_rows], 'replay': 'h_status table'}, found_input=True)
     if rc != 0 or not impl_rows:
         ck.add_violation('table:harness-failed', '-! run failed rc=%d: %s' % (rc, err[-400:]), {}, found_input=False)
 
@@ -346,22 +396,45 @@ def run(ck):
     STUB = 'sol:stub=@DIR@/alt'
     # (model, options, nobj values the solver returns, nalt values, (primal,dual) combinations, all codes?)
     PD4 = [(0, 0), (0, 1), (1, 0), (1, 1)]
-    models = [('tiny', [], (0, 1), (0,), PD4, True),
-              ('noobj', [], (1,), (0,), PD4, True),
-              ('twoobj', ['obj:multi=1'], (2,), (0,), PD4, True),              # >1 objective values: "Individual objective values"
-              ('tiny', [STUB], (1,), (0, 1, 2), [(0, 0), (1, 1)], True),       # intermediate solutions -> <solstub>N.sol
-              ('tiny', [], (1,), (1, 2), [(1, 1)], False)]                     # no sol:stub: nothing must be written
+    # (model, options, nobj values the solver returns, nalt values, (primal,dual) combinations, all codes?, harness flags)
+    F0 = (0,)
+    models = [('tiny', [], (0, 1), (0,), PD4, True, F0),
+              ('noobj', [], (1,), (0,), PD4, True, F0),
+              ('twoobj', ['obj:multi=1'], (2,), (0,), PD4, True, F0),              # >1 objective values: "Individual objective values"
+              ('tiny', [STUB], (1,), (0, 1, 2), [(0, 0), (1, 1)], True, F0),       # intermediate solutions -> <solstub>N.sol
+              ('tiny', [], (1,), (1, 2), [(1, 1)], False, F0),                     # no sol:stub: nothing must be written
+              # round 3 (coverage audit): message variants and the suffixes that depend on the classification
+              ('tiny', ['alg:feasrelax=1'], (1,), (0,), [(1, 1)], True, (1,)),     # "; feasrelax objective", "Original objective ="
+              ('tiny', ['alg:feasrelax=1'], (1,), (0,), [(0, 0)], False, (0,)),
+              ('tiny', ['alg:rays=3', 'alg:iisfind=1', 'alg:kappa=3'], (1,), (0,), [(1, 1)], True, (0, 2)),   # .unbdd/.dunbdd/.iis/.kappa
+              ('tiny', ['alg:rays=1'], (1,), (0,), [(1, 1)], False, F0), ('tiny', ['alg:rays=2', 'alg:kappa=1'], (1,), (0,), [(0, 0)], False, F0),
+              ('tiny', ['alg:rays=0', 'alg:kappa=2'], (1,), (0,), [(1, 0)], False, F0),
+              ('mip2', ['mip:round=7'], (1,), (0,), [(1, 1), (0, 1)], False, (16,)),   # RoundSolution only for candidate codes (thorough: all codes)
+              ('mip2', ['mip:round=5', STUB], (1,), (1,), [(1, 1)], False, (16, 0)),
+              ('tiny', ['@noampl'], (1,), (0,), [(1, 1)], True, F0),               # command-line use: message printed on stdout
+              ('noobj', ['@noampl'], (1,), (0,), [(0, 0)], False, F0),
+              ('tiny', ['@noampl', '@wantsol=9'], (1,), (0,), [(1, 1)], False, F0),   # wantsol 8: message suppressed on stdout, .sol still written
+              ('tiny', ['@noampl', '@wantsol=7'], (1,), (0,), [(1, 0)], False, F0),   # wantsol 2,4: solution printed as well
+              ('mip2', ['mip:round=3'], (1,), (0,), [(1, 1)], False, (16,)), ('mip2', ['mip:round=6', 'tech:reporttimes=1'], (1,), (0,), [(1, 1)], False, (16,)),
+              ('tiny', ['sol:count=1'], (1,), (0, 2), [(1, 1)], False, F0),        # multiple solutions wanted, no stub: no numbered files
+              ('tiny', [STUB], (1,), (2,), [(1, 1)], False, (4, 6))]               # intermediate solutions without objective value
     if not quick:
-        models += [('tiny', ['sol:chk:mode=0'], (1,), (0,), PD4, True), ('mip2', [], (1,), (0,), PD4, True), ('twoobj', [], (1,), (0,), PD4, True),
-                   ('twoobj', ['obj:multi=1', STUB], (0, 2), (0, 1, 2), PD4, True), ('mip2', [STUB], (1,), (2,), PD4, True)]
+        models += [('tiny', ['sol:chk:mode=0'], (1,), (0,), PD4, True, F0), ('mip2', [], (1,), (0,), PD4, True, F0), ('twoobj', [], (1,), (0,), PD4, True, F0),
+                   ('twoobj', ['obj:multi=1', STUB], (0, 2), (0, 1, 2), PD4, True, F0), ('mip2', [STUB], (1,), (2,), PD4, True, F0),
+                   ('tiny', ['alg:feasrelax=1'], (0, 1), (0,), PD4, True, (0, 1, 3)), ('noobj', ['alg:feasrelax=1'], (1,), (0,), [(1, 1)], True, (1,)),
+                   ('twoobj', ['obj:multi=1', 'alg:feasrelax=1', 'alg:iisfind=1'], (2,), (0,), [(1, 1)], True, (1,)),
+                   ('tiny', ['alg:rays=1', 'alg:iisfind=1'], (1,), (0,), PD4, True, F0), ('tiny', ['alg:rays=2', 'alg:kappa=1'], (1,), (0,), PD4, True, F0),
+                   ('tiny', ['alg:rays=0', 'alg:kappa=2'], (1,), (0,), PD4, True, F0), ('mip2', ['mip:round=7', STUB], (1,), (0, 2), PD4, True, (16, 0)),
+                   ('mip2', ['mip:round=3'], (1,), (0,), [(1, 1)], True, (16,)), ('mip2', ['mip:round=7'], (1,), (0,), PD4, True, (16,)), ('noobj', ['@noampl'], (1,), (0,), PD4, True, F0),
+                   ('twoobj', ['obj:multi=1', '@noampl'], (2,), (0,), [(1, 1)], True, F0), ('tiny', ['sol:count=1'], (1,), (0, 1, 2), PD4, True, F0)]
     jobs = []
     all_codes = list(range(-200, 1000))
     some_codes = sorted(set([-200, -1, 0, 99, 100, 150, 199, 200, 299, 300, 349, 350, 399, 400, 449, 450, 469, 470, 499, 500, 550, 999]
                             + [rnd.randint(-200, 999) for _ in range(150)]))
-    for mi, (mn, mopts, nobjs, nalts, pds, allc) in enumerate(models):
+    for mi, (mn, mopts, nobjs, nalts, pds, allc, flagvals) in enumerate(models):
         cs = list(all_codes if allc else some_codes)
         cs = cs + ([] if quick else [-1000, -201, 1000, 5000, 2 ** 31 - 1, -2 ** 31])
-        ops = ['%d %d %d %d %d' % (c, n, p, d, k) for c in cs for n in nobjs for (p, d) in pds for k in nalts]
+        ops = ['%d %d %d %d %d %d' % (c, n, p, d, k, fl) for c in cs for n in nobjs for (p, d) in pds for k in nalts for fl in flagvals]
         nchunk = max(1, len(ops) // 2500)
         for j in range(nchunk):
             jobs.append((mn, mopts, ops[j::nchunk], '%s_%d_%d' % (mn, mi, j)))
@@ -388,6 +461,11 @@ def run(ck):
         mops, cans, obs = [], [], []
         nobj_model = nl_objectives(os.path.join(VERIF, 'corpus', 'C10', mn + '.nl'), mopts)
         stub = 1 if any(o.startswith('sol:stub=') for o in mopts) else 0
+        optv = lambda name, dflt: next((int(o.split('=')[1]) for o in mopts if o.startswith(name + '=')), dflt)
+        o_fr, o_kappa, o_rays, o_iis = optv('alg:feasrelax', 0), optv('alg:kappa', 0), optv('alg:rays', 3), optv('alg:iisfind', 0)
+        o_round, o_count, o_noampl, o_wantsol = optv('mip:round', 0), optv('sol:count', 0), '@noampl' in mopts, optv('@wantsol', 1)
+        is_mip = mn == 'mip2'
+        xops, xcans = [], []
         for l in lines:
             op, can, o = canon_report(l, nobj_model, stub)
             if op is None:
@@ -413,10 +491,44 @@ def run(ck):
             tag = (mn, tuple(mopts), o['nobj_in'], o['primal'], o['dual'], o['nalt_in'])
             # intermediate / pool solutions: one numbered file per reported solution iff sol:stub, each with the reported code
             want_files = o['nalt_in'] if stub else 0
-            if o['nfiles'] != want_files or o['multi'] != stub or len(o['hfs']) != (o['nalt_in'] if stub else 0):
+            want_multi = 1 if (stub or o_count) else 0
+            if o['nfiles'] != want_files or o['multi'] != want_multi or len(o['hfs']) != (o['nalt_in'] if want_multi else 0):
                 rep_fail.setdefault('altsol:file-count', []).append((o['code'], tag))
             if any(x != str(o['code']) for x in o['altcodes']) or any(x != o['code'] for x in o['hfs']) or not o['altmsg']:
                 rep_fail.setdefault('altsol:code-not-echoed', []).append((o['code'], tag))
+            # round 3: message variants and suffixes that depend on the classification (documented classes, not the model)
+            fl = o['flags']
+            has = lambda *names: all(x in o['sufs'] for x in names)
+            exp = {'fr': int(want_shown and o_fr != 0 and nobj_model == 1), 'orig': int(want_shown and o_fr != 0 and nobj_model == 1 and bool(fl & 1)),
+                   'kappa': int(k == 'solved' and o_kappa != 0),
+                   'unbdd': int(bool(o_rays & 1) and k in ('unbounded-feas', 'unbounded-nofeas', 'limit-inf-unb')),
+                   'dunbdd': int(bool(o_rays & 2) and k in ('infeasible', 'limit-inf-unb')),
+                   'iis': int(o_iis != 0 and k in ('infeasible', 'unbounded-feas', 'unbounded-nofeas', 'limit-inf-unb'))}
+            got = {'fr': o['fr'], 'orig': o['orig'], 'kappa': int(has('obj.kappa', 'prob.kappa')), 'unbdd': int(has('var.unbdd')),
+                   'dunbdd': int(has('con.dunbdd')), 'iis': int(has('var.iis', 'con.iis'))}
+            for key in exp:
+                hist.setdefault('extras_true', {}).setdefault(key, 0)
+                hist['extras_true'][key] += got[key]
+                if exp[key] != got[key]:
+                    rep_fail.setdefault(('message:%s' if key in ('fr', 'orig') else 'suffix:%s') % key + (':missing' if exp[key] else ':unexpected'), []).append((o['code'], tag))
+            xops.append('extras %d %d %d %d %d %d %d %d' % (o['code'], nobj_model, int(o_fr != 0), int(o_fr != 0 and bool(fl & 1)), int(o_kappa != 0),
+                                                               o_rays & 1, (o_rays >> 1) & 1, int(o_iis != 0)))
+            xcans.append(xops[-1] + ' | fr=%d orig=%d kappa=%d unbdd=%d dunbdd=%d iis=%d' % tuple(got[x] for x in ('fr', 'orig', 'kappa', 'unbdd', 'dunbdd', 'iis')))
+            # NB the code tests `exportKappa() && 1` (logical and): the message line appears for every non-zero alg:kappa,
+            # not only when bit 1 is set as the option text says (side finding, not part of C10; see design_notes/coverage/C10.md)
+            if o['kappamsg'] != int(o_kappa != 0) or o['extra'] != int(bool(fl & 2)):
+                rep_fail.setdefault('message:kappa-or-extra-line', []).append((o['code'], tag))
+            want_round = int(bool(o_round & 4) and bool(fl & 16) and is_mip and bool(o['primal']) and k in CANDIDATE)
+            if o['roundmsg'] != want_round:
+                rep_fail.setdefault('message:rounding-note' + (':missing' if want_round else ':unexpected'), []).append((o['code'], tag))
+            hist['round_notes'] = hist.get('round_notes', 0) + o['roundmsg']
+            if o_noampl:
+                hist['stdout_runs'] = hist.get('stdout_runs', 0) + 1
+                shown_on_stdout = not (o_wantsol & 8)
+                if o['stdoutmsg'] != int(shown_on_stdout) or o['stdoutobj'] != int(want_shown and shown_on_stdout):
+                    rep_fail.setdefault('stdout:message-differs', []).append((o['code'], tag))
+            if o['altrange'] != int(want_multi and o['nalt_in'] > 0 and not (fl & 4)):
+                rep_fail.setdefault('message:alt-objective-range', []).append((o['code'], tag))
             if o['nobj'] != nobj_model:
                 rep_fail.setdefault('objvals:size-differs-from-model-objectives', []).append((o['code'], tag))
             if o['objShown'] and not want_shown:
@@ -431,6 +543,15 @@ def run(ck):
                 rep_fail.setdefault('message:status-text-missing', []).append((o['code'], tag))
             if (corr['report'] % 797) == 0:
                 ck.sample(can)
+        # the `extras` stream of this job against the Lean model
+        mx = model(xops)
+        if mx is not None:
+            for i, xc in enumerate(xcans):
+                corr['extras'] = corr.get('extras', 0) + 1
+                if i >= len(mx) or mx[i] != xc:
+                    disagree('extras', xops[i], xc, mx[i] if i < len(mx) else None)
+            if xcans and len(ck.cov['samples']) < 11:
+                ck.sample(xcans[len(xcans) // 3])
     for kind, lst in sorted(rep_fail.items()):
         by_code = {}
         for c, tag in lst:
@@ -491,6 +612,8 @@ def run(ck):
                               'searched': 'all codes -200..999 (+%d others) on the compiled predicates, %d complete driver runs: none violates the documented behaviour beyond the known findings' % (len(extra), corr['report'])},
                              found_input=False)
 
+    if cov_mode:
+        c10_coverage.report(ck, os.environ.get('VERIF_COVERAGE_TAG', 'after'))
     n_eval = corr['enum'] + corr['pred'] + corr['table'] + corr['report'] + corr.get('report_assert_build', 0)
     ck.cov['evaluations'] = n_eval
     ck.cov['distinct_nontrivial'] = len(distinct) + len(set(codes))
@@ -502,6 +625,21 @@ def run(ck):
     ck.cov['correspondence'] = {'lines_compared_model_vs_impl': dict(corr), 'disagreements': sum(len(v) for v in corr_bad.values())}
     ck.cov['traces_validated_against_impl'] = sum(corr.values()) if drv else 0
     ck.cov['generator_histogram'] = hist
+    ck.cov['model_arms_exercised'] = dict(sorted(arms.items()))
+    expected_arms = (['documented/classify=' + c for c in CLASSES + ['none']] + ['candidate=0', 'candidate=1'] +
+                     ['%s=%d' % (p, b) for p in PREDS for b in (0, 1)] +
+                     ['report.%s=%d' % (k, b) for k in ('objShown', 'primal', 'dual', 'objval', 'solStub') for b in (0, 1)] +
+                     ['report.alt=' + v for v in ('none', 'one', 'several')] +
+                     ['extras.%s=%d' % (k, b) for k in ('fr', 'orig', 'kappa', 'unbdd', 'dunbdd', 'iis') for b in (0, 1)])
+    ck.cov['model_arms_never_taken'] = [a for a in expected_arms if drv and not arms.get(a)]
+    covjson = os.path.join(VERIF, 'design_notes', 'coverage', 'C10.json')
+    if os.path.exists(covjson):      # measured in the last VERIF_COVERAGE=1 run (committed file; not recomputed here)
+        cj = json.load(open(covjson))
+        ck.cov['anchor_line_cov'] = cj.get('anchor_line_cov')
+        ck.cov['anchor_branch_cov'] = cj.get('anchor_branch_cov')
+        ck.cov['mechanism_line_cov'] = cj.get('mechanism_line_cov')
+        ck.cov['mechanism_branch_cov'] = cj.get('mechanism_branch_cov')
+        ck.cov['coverage_measured'] = cj.get('measured')
     ck.cov['documented_rows_parsed'] = len(doc.rows)
     ck.assumptions += ['NDEBUG build (the predicates assert IsSolStatusRetrieved(); code -200 = NOT_SET is evaluated with asserts off)',
                        'the predicates are those of StdBackend as inherited by FlatBackend<MIPBackend<VisitorBackend>> (checked: compiled predicates of that stack = generated definitions on every code)',
